@@ -84,7 +84,7 @@ inductive Outcome where
   that fails ends the run, which is covered because the theorem speaks about every reachable
   state) -/
   | next (succs : List VmState)
-  deriving Repr
+  deriving DecidableEq, Repr
 
 /-- `Context::current_loop`: the recursion target of the innermost loop frame -/
 def innermostLoop : List RFrame → Option (Option Nat)
